@@ -123,7 +123,10 @@ def _parse_string(s):
     frac = float("0." + s_frac) * factor
     count = float("0" + s_count) * factor
 
-    assert count + frac == test
+    # The parts are rounded separately (and a leftover exponent is applied by a
+    # multiplication), so their sum can differ from the directly parsed value
+    # in the last place or two.
+    assert abs(count + frac - test) <= 4 * np.finfo(float).eps * abs(test)
     return count, frac
 
 
